@@ -15,6 +15,8 @@ void scen_c10_conc(mt_case *);
 void scen_c12(mt_case *);
 void scen_c13(mt_case *);
 void scen_c14(mt_case *);
+void scen_c17(mt_case *);
+void scen_c17_mtbb(mt_case *);
 void scen_c20(mt_case *);
 const mt_scenario mt_scenarios[] = {
   { 1, "C01 create/join", scen_c01 },
@@ -32,6 +34,8 @@ const mt_scenario mt_scenarios[] = {
   { 12, "C12 stacks/records lifetime", scen_c12 },
   { 13, "C13 reaping", scen_c13 },
   { 14, "C14 once", scen_c14 },
+  { 17, "C17 bulk fork-join (C API)", scen_c17 },
+  { 27, "C17 mtbb task_group / parallel_for", scen_c17_mtbb },
   { 20, "C20 sleep and timed waits", scen_c20 },
   { 22, "C02 library with custom steal function", scen_c02_lib },
 };
